@@ -471,3 +471,117 @@ def rf7j(run):
 def rf_flow_blocks(cfg, pred):
     import rf_flow
     return rf_flow.blocks_with(cfg, pred)
+
+
+# ---------------------------------------------------------------------------------------------
+# RF22b: the scanner's numeric conversion does not reject on errno
+# ---------------------------------------------------------------------------------------------
+
+def rf22b(run):
+    rule = 'RF22b'
+    run.rule(rule, 'text scanner: after strtof/strtod/strtold no error exit is taken because errno is set. The writer prints every '
+                   'finite value, including subnormal ones, and the C library is allowed to (glibc does) report ERANGE for a '
+                   'conversion whose result is subnormal; rejecting on errno makes the scanner refuse numbers the writer produced')
+    from rf_proto import dominating_conditions
+    from lib import absint as AI
+    tu = run.tu('mir')
+    f = tu.func('scan_token')
+    run.functions_analysed.add(('mir', f.name))
+    conv = [x for x in f.walk() if x['k'] == 'CallExpr' and x.get('callee') in ('strtof', 'strtod', 'strtold')]
+    if len(conv) < 3:
+        raise F.AnalysisBroken('scan_token: strtof/strtod/strtold conversions not found')
+    cfg = f.cfg
+    n = 0
+    for x in f.walk():
+        if x['k'] != 'CallExpr':
+            continue
+        is_err = x.get('callee') == 'scan_error' or AI.is_error_call(x) is not None
+        if not is_err:
+            continue
+        b = cfg.block_of(x)
+        if b is None:
+            continue
+        conds = dominating_conditions(cfg, b)
+        on_errno = [c for c, t in conds if 'errno' in c or '__errno_location' in c]
+        n += 1
+        ok = not on_errno
+        run.ob(rule, ('error-exit', x['l']), ok, {'error exit at line': x['l'], 'guarded by errno': on_errno})
+        if not ok:
+            run.violation(rule, f, 'error exit on errno', 'scan_token raises a scan error when %s: ERANGE is also reported for subnormal '
+                          'results, so floating-point immediates and data below the smallest normal number that MIR_output prints are '
+                          'rejected on read-back' % on_errno[0], line=x['l'])
+    if n == 0:
+        raise F.AnalysisBroken('scan_token: no error exits found')
+    return n
+
+
+# ---------------------------------------------------------------------------------------------
+# RF37: floating-point constants are printed with enough digits to be read back exactly
+# ---------------------------------------------------------------------------------------------
+
+FP_NEED = {'float': 9, 'double': 17, 'long double': 21}   # decimal digits that identify every value (x87 extended: 21)
+
+
+def rf37(run, unit, entries):
+    import re
+    rule = 'RF37'
+    run.rule(rule, 'every printf conversion that writes a float / double / long double operand or data element in the textual writer '
+                   '(mir.c) and in the C translator (mir2c) is %e / %g with at least 9 / 17 / 21 significant digits (or %a): fewer digits '
+                   'do not identify the binary value, so the text read back (or the C constant compiled) differs from the MIR value')
+    tu = run.tu(unit)
+    fs = tu.reachable(entries)
+    conv = re.compile(r'%([-#0 +]*)([0-9]*|\*)(?:\.([0-9]+|\*))?(hh|h|ll|l|L|z|j|t)?([a-zA-Z%])')
+    n = 0
+    for fn in sorted(fs):
+        f = tu.funcs.get(fn)
+        if f is None or f.body is None:
+            continue
+        for x in f.walk():
+            if x['k'] != 'CallExpr' or x.get('callee') != 'fprintf':
+                continue
+            args = F.call_args(x)
+            if len(args) < 2 or F.src(F.strip(args[0])) == 'stderr':
+                continue
+            fmt = F.strip(args[1])
+            if fmt['k'] != 'StringLiteral':
+                continue
+            ai = 2
+            for m in conv.finditer(fmt['s']):
+                flags, width, prec, lenm, c = m.groups()
+                if c == '%':
+                    continue
+                pv = None
+                if width == '*':
+                    ai += 1
+                if prec == '*':
+                    pv = F.const_value(args[ai]) if ai < len(args) else None
+                    ai += 1
+                elif prec is not None:
+                    pv = int(prec)
+                a = args[ai] if ai < len(args) else None
+                ai += 1
+                if c not in 'eEgGfFaA' or a is None:
+                    continue
+                at = tu.type(F.strip(a, explicit=False))
+                tname = 'long double' if lenm == 'L' else ('float' if at is not None and at.s.strip() == 'float' else 'double')
+                run.functions_analysed.add((unit, fn))
+                n += 1
+                if c in 'aA':
+                    run.ob(rule, (unit, fn, x['l'], m.start()), True, {'site': '%s:%d' % (f.relfile(), x['l']), 'conversion': m.group(0), 'verdict': 'hexadecimal: exact'})
+                    continue
+                need = FP_NEED[tname]
+                if c in 'fF':
+                    ok, digits = False, None
+                elif pv is None:
+                    ok, digits = False, None
+                else:
+                    digits = pv + 1 if c in 'eE' else pv
+                    ok = digits >= need
+                run.ob(rule, (unit, fn, x['l'], m.start()), ok, {'site': '%s:%d' % (f.relfile(), x['l']), 'conversion': m.group(0), 'type': tname,
+                                                                'significant digits': digits, 'needed': need})
+                if not ok:
+                    run.violation(rule, f, 'conversion %s of a %s' % (m.group(0), tname),
+                                  '%s prints a %s with %s: %s significant digits; %d are needed to identify every value, so the printed '
+                                  'constant does not denote the value held by the MIR operand' % (fn, tname, m.group(0),
+                                                                                                  digits if digits is not None else 'an unbounded/fixed number of', need), line=x['l'])
+    return n
